@@ -3,6 +3,7 @@ use vstd::prelude::*;
 use vstd::future::*;
 use core::task::Poll;
 use core::future::Future;
+use core::mem;
 
 macro_rules! ready {
     ($e:expr $(,)?) => {
@@ -388,9 +389,10 @@ pub enum ResolverKind { Default, Custom(Rc<DynResolve>) }
 pub struct ResolverService { pub kind: ResolverKind }
 
 impl<R: HostName> ConnectInfo<R> {
-    #[verifier::external_body]
-    pub fn hostname(&self) -> (r: &Str) ensures *r == self.request.spec_hostname() { unimplemented!() }
-
+//@extract file=actix-tls/src/connect/info.rs item="impl<R: Host> ConnectInfo<R> / fn hostname" ret=r props=C19 name=info::hostname sig_replace="&str=>&Str"
+//@spec
+    ensures *r == self.request.spec_hostname(),     // [C19] the name that is resolved and verified is the request's own
+//@end
 }
 /// the `impl Into<Option<SocketAddr>>` / `impl Into<IpAddr>` arguments of the builder methods: stand-in traits with a
 /// spec for the conversion (identity for the types themselves)
@@ -422,6 +424,116 @@ impl<R: HostName> ConnectInfo<R> {
 //@extract file=actix-tls/src/connect/info.rs item="impl<R: Host> ConnectInfo<R> / fn request" ret=r props=C19 name=info::request
 //@spec
     ensures *r == self.request,
+//@end
+}
+
+/// mem::take leaves `T::default()` behind — whatever the type's own `default` promises (here: the extracted
+/// `impl Default for ConnectAddrs`)
+pub assume_specification<T>[ core::mem::take::<T> ](dest: &mut T) -> (r: T)
+    where T: Default
+    ensures r == *old(dest), call_ensures(T::default, (), *final(dest));
+
+// ---- the address iterators handed out by `addrs()` / `take_addrs()` (connect_addrs.rs)
+pub mod vec_deque {
+    use vstd::prelude::*;
+    /// std::collections::vec_deque::Iter / IntoIter: only the elements still to come, front to back
+    #[verifier::external_body]
+    #[verifier::reject_recursive_types(T)]
+    pub struct Iter<'a, T> { _p: core::marker::PhantomData<&'a T> }
+    #[verifier::external_body]
+    #[verifier::reject_recursive_types(T)]
+    pub struct IntoIter<T> { _p: core::marker::PhantomData<T> }
+    impl<'a, T> Iter<'a, T> {
+        pub uninterp spec fn view(&self) -> Seq<T>;
+        #[verifier::external_body]
+        pub fn next(&mut self) -> (r: Option<&'a T>)
+            ensures old(self)@.len() == 0 ==> r.is_none() && final(self)@ == old(self)@,
+                    old(self)@.len() > 0 ==> r.is_some() && *r.unwrap() == old(self)@[0] && final(self)@ == old(self)@.subrange(1, old(self)@.len() as int),
+        { unimplemented!() }
+        #[verifier::external_body]
+        pub fn size_hint(&self) -> (r: (usize, Option<usize>))
+            ensures r.0 == self@.len(), r.1 == Some(r.0),
+        { unimplemented!() }
+    }
+    impl<T> IntoIter<T> {
+        pub uninterp spec fn view(&self) -> Seq<T>;
+        #[verifier::external_body]
+        pub fn next(&mut self) -> (r: Option<T>)
+            ensures old(self)@.len() == 0 ==> r.is_none() && final(self)@ == old(self)@,
+                    old(self)@.len() > 0 ==> r == Some(old(self)@[0]) && final(self)@ == old(self)@.subrange(1, old(self)@.len() as int),
+        { unimplemented!() }
+        #[verifier::external_body]
+        pub fn size_hint(&self) -> (r: (usize, Option<usize>))
+            ensures r.0 == self@.len(), r.1 == Some(r.0),
+        { unimplemented!() }
+    }
+}
+impl<T> VecDeque<T> {
+    #[verifier::external_body]
+    pub fn iter(&self) -> (r: vec_deque::Iter<'_, T>) ensures r@ == self@ { unimplemented!() }
+    #[verifier::external_body]
+    pub fn into_iter(self) -> (r: vec_deque::IntoIter<T>) ensures r@ == self@ { unimplemented!() }
+}
+pub assume_specification<'a, T: Copy>[ Option::<&'a T>::copied ](o: Option<&'a T>) -> (r: Option<T>)
+    ensures o.is_none() ==> r.is_none(), o.is_some() ==> r == Some(*o.unwrap());
+
+//@extract_type file=actix-tls/src/connect/connect_addrs.rs item="enum ConnectAddrsIter<'a>"
+
+impl<'a> ConnectAddrsIter<'a> {
+    /// the addresses the iterator will still yield, in order
+    pub open spec fn rest(&self) -> Seq<SocketAddr> {
+        match *self {
+            ConnectAddrsIter::None => Seq::empty(),
+            ConnectAddrsIter::One(a) => seq![a],
+            ConnectAddrsIter::Multi(i) => i@,
+            ConnectAddrsIter::MultiOwned(i) => i@,
+        }
+    }
+//@extract file=actix-tls/src/connect/connect_addrs.rs item="impl Iterator for ConnectAddrsIter<'_> / fn next" ret=r props=C19 name=connect_addrs::iter_next
+//@spec
+    ensures
+        // yields the addresses one by one, in order, each once   [C19]
+        old(self).rest().len() == 0 ==> r.is_none() && final(self).rest().len() == 0,
+        old(self).rest().len() > 0 ==> r == Some(old(self).rest()[0]) && final(self).rest() =~= old(self).rest().subrange(1, old(self).rest().len() as int),
+//@end
+//@extract file=actix-tls/src/connect/connect_addrs.rs item="impl Iterator for ConnectAddrsIter<'_> / fn size_hint" ret=r props=C19 name=connect_addrs::iter_size_hint
+//@spec
+    ensures r.0 == self.rest().len(), r.1 == Some(r.0),    // ExactSizeIterator's promise
+//@end
+}
+
+impl Default for ConnectAddrs {
+//@extract file=actix-tls/src/connect/connect_addrs.rs item="impl Default for ConnectAddrs / fn default" ret=r props=C19 name=connect_addrs::default
+//@spec
+    ensures r is None,
+//@end
+}
+
+impl<R: Host> ConnectInfo<R> {
+//@extract file=actix-tls/src/connect/info.rs item="impl<R: Host> ConnectInfo<R> / fn addrs" ret=r props=C19 name=info::addrs sig_replace="impl Iterator<Item = SocketAddr> + ExactSizeIterator + iter::FusedIterator + Clone + fmt::Debug + '_=>ConnectAddrsIter<'_>"
+//@spec
+    ensures r.rest() == self.addr.list(),     // [C19] exactly the request's addresses, in the order they were set
+//@end
+//@extract file=actix-tls/src/connect/info.rs item="impl<R: Host> ConnectInfo<R> / fn take_addrs" ret=r props=C19 name=info::take_addrs sig_replace="impl Iterator<Item = SocketAddr> + ExactSizeIterator + iter::FusedIterator + Clone + fmt::Debug + 'static=>ConnectAddrsIter<'static>"
+//@spec
+    ensures
+        r.rest() == old(self).addr.list(),    // [C19] exactly the request's addresses, in order …
+        final(self).addr is None,             // … and the request keeps none of them
+        final(self).request == old(self).request, final(self).port == old(self).port, final(self).local_addr == old(self).local_addr,
+//@end
+}
+
+impl<R: HostName> vstd::std_specs::convert::FromSpecImpl<R> for ConnectInfo<R> {
+    open spec fn obeys_from_spec() -> bool { false }
+    uninterp spec fn from_spec(a: R) -> ConnectInfo<R>;
+}
+impl<R: HostName> From<R> for ConnectInfo<R> {
+//@extract file=actix-tls/src/connect/info.rs item="impl<R: Host> From<R> for ConnectInfo<R> / fn from" ret=r props=C19 name=info::from_request
+//@spec
+    ensures
+        // `request.into()` is `ConnectInfo::new(request)`: no addresses yet, the host's own port   [C19]
+        r.request == addr, r.addr is None, r.local_addr is None,
+        r.port == (match addr.spec_port() { Some(p) => p, None => 0u16 }),
 //@end
 }
 
